@@ -33,26 +33,47 @@ def prologue(ctx, P):
             if isinstance(st, ast.While):
                 break
             pre.append(st)
-        writes = []
-        for st in pre:
-            for x in ast.walk(st):
-                if isinstance(x, (ast.Assign, ast.AugAssign)):
-                    for t in (x.targets if isinstance(x, ast.Assign) else [x.target]):
-                        if not isinstance(t, ast.Name):
-                            writes.append((unparse(t), x))
-                if isinstance(x, ast.Call) and isinstance(x.func, ast.Attribute) and x.func.attr in ("append", "pop", "remove", "update", "timestamp", "have_event", "event_and_return_nextnode"):
-                    if unparse(x.func.value) != "self.progress_bar":
-                        writes.append((unparse(x.func), x))
-        ob.ok(m, "%s prologue writes: %s" % (m, [w for w, _ in writes]))
-        for w, node in writes:
-            if w in ("self.current_time", "self.progress_bar"):
+        from ..paths import Walker, Frame, State, func_locals
+        from ..typestate import origin
+        MUT = ("append", "pop", "remove", "update", "timestamp", "have_event", "event_and_return_nextnode", "insert", "extend", "clear")
+        w = Walker(P, sim, keep=lambda e: e.kind in ("assign", "aug", "del", "return", "leave") or (e.kind == "call" and (e.d["meth"] in MUT or e.d["meth"] == "find_next_active_node")),
+                   inline=rules.new_helper)
+        fr = Frame(sim, cls, fn)
+        fr._locals = func_locals(fn)
+        reported = set()
+        npaths = 0
+        for st in w.block(pre, [State()], fr):
+            if st.status == "raise":
                 continue
-            ctx.violation(ob, "R10.prologue", "Simulation.%s" % m, w, "prologue-writes-state", "re-entering the loop must not change simulation state (`%s` is written before the first event)" % w, loc(node))
-        sel = [st for st in pre if isinstance(st, ast.Assign) and isinstance(st.targets[0], ast.Name) and unparse(st.value) == "self.find_next_active_node()"]
-        clk = [st for st in pre if isinstance(st, ast.Assign) and unparse(st.targets[0]) == "self.current_time"]
-        if True:
-            if len(sel) != 1 or len(clk) != 1 or unparse(clk[0].value) != "%s.next_event_date" % unparse(sel[0].targets[0]) or pre.index(sel[0]) > pre.index(clk[0]):
-                ctx.violation(ob, "R10.prologue", "Simulation.%s" % m, "prologue", "prologue-shape", "the loop must resume from find_next_active_node() and its date", loc(fn))
+            npaths += 1
+            evs = list(st.events)
+            writes = []
+            for e in evs:
+                if e.kind in ("assign", "aug", "del") and not e.d.get("local"):
+                    writes.append((e.d["target"], e))
+                elif e.kind == "call" and e.d["meth"] in MUT and e.d.get("recv") != "self.progress_bar":
+                    writes.append(("%s.%s" % (e.d.get("recv"), e.d["meth"]), e))
+            ob.ok(m, "%s prologue writes: %s" % (m, [x for x, _ in writes]))
+            for wt, e in writes:
+                if wt in ("self.current_time", "self.progress_bar") or (wt, m) in reported:
+                    continue
+                reported.add((wt, m))
+                ctx.violation(ob, "R10.prologue", "Simulation.%s" % m, wt, "prologue-writes-state", "re-entering the loop must not change simulation state (`%s` is written before the first event)" % wt, e.where, rules.witness(st))
+            clk = [(i, e) for i, e in enumerate(evs) if e.kind == "assign" and e.d["target"] == "self.current_time"]
+            shape = len(clk) == 1
+            if shape:
+                i, e = clk[0]
+                v = e.d.get("value_node")
+                shape = isinstance(v, ast.Attribute) and v.attr == "next_event_date" and isinstance(v.value, ast.Name)
+                if shape:
+                    o = origin(evs, i, v.value.id + e.frame.tag)
+                    shape = o is not None and isinstance(o[0], ast.Call) and call_name(o[0]) == "find_next_active_node"
+                    # the node handed to the loop is that same node
+            if not shape and ("shape", m) not in reported:
+                reported.add(("shape", m))
+                ctx.violation(ob, "R10.prologue", "Simulation.%s" % m, "prologue", "prologue-shape", "the loop must resume from find_next_active_node() and its date", loc(fn), rules.witness(st))
+        if npaths == 0:
+            ctx.unrecognised("PRO: no prologue path in %s" % m)
     # find_next_active_node: pure scan; random_choice only under len(...) > 1
     cls, fn = sim.method("find_next_active_node")
     for x in ast.walk(fn):
